@@ -191,24 +191,36 @@ impl TryFrom<&str> for FeelDaysAndTimeDuration {
         if let Ok(days) = days_match.as_str().parse::<u64>() {
           nanoseconds += (days as i128) * NANOSECONDS_IN_DAY;
           is_valid = true;
+        } else {
+          // a component that is not representable makes the whole literal invalid
+          return Err(invalid_date_and_time_duration_literal(value.to_string()));
         }
       }
       if let Some(hours_match) = captures.name("hours") {
         if let Ok(hours) = hours_match.as_str().parse::<u64>() {
           nanoseconds += (hours as i128) * NANOSECONDS_IN_HOUR;
           is_valid = true;
+        } else {
+          // a component that is not representable makes the whole literal invalid
+          return Err(invalid_date_and_time_duration_literal(value.to_string()));
         }
       }
       if let Some(minutes_match) = captures.name("minutes") {
         if let Ok(minutes) = minutes_match.as_str().parse::<u64>() {
           nanoseconds += (minutes as i128) * NANOSECONDS_IN_MINUTE;
           is_valid = true;
+        } else {
+          // a component that is not representable makes the whole literal invalid
+          return Err(invalid_date_and_time_duration_literal(value.to_string()));
         }
       }
       if let Some(seconds_match) = captures.name("seconds") {
         if let Ok(seconds) = seconds_match.as_str().parse::<u64>() {
           nanoseconds += (seconds as i128) * NANOSECONDS_IN_SECOND;
           is_valid = true;
+        } else {
+          // a component that is not representable makes the whole literal invalid
+          return Err(invalid_date_and_time_duration_literal(value.to_string()));
         }
       }
       if let Some(fractional_match) = captures.name("fractional") {
@@ -217,7 +229,8 @@ impl TryFrom<&str> for FeelDaysAndTimeDuration {
       if captures.name("sign").is_some() {
         nanoseconds = -nanoseconds;
       }
-      if is_valid {
+      // the time designator must be followed by at least one time component
+      if is_valid && !value.ends_with('T') {
         return Ok(FeelDaysAndTimeDuration(nanoseconds));
       }
     }
